@@ -73,7 +73,62 @@ func (g *G) grpcDesign() {
 		// the example generator needs at least one HTTP service
 		d.Services = append(d.Services, &m.Service{Name: "health", HasHTTP: true, Methods: []*m.Method{{Name: "ping", HTTP: &m.HTTPEndpoint{Routes: []m.Route{{Verb: "GET", Path: "/ping"}}}}}})
 	}
+	if g.avoid("C10-nested-collection-wrappers-share-one-validator") {
+		stripNestedCollectionValidations(d)
+	}
 	assignTags(t, d)
+}
+
+// stripNestedCollectionValidations removes the validations of collections
+// nested in collections (ArrayOf(MapOf(...)), MapOf(String, ArrayOf(...)) ...)
+// and of their keys and elements. goa wraps such an inner collection in a
+// protocol buffer message named after its shape (MapOfStringSint32) and
+// generates ONE validator per wrapper name: two attributes of the same shape
+// with different validations get each other's rules (open finding).
+func stripNestedCollectionValidations(d *m.Design) {
+	seen := map[*m.Attr]bool{}
+	var walk func(a *m.Attr, inColl bool)
+	clear := func(a *m.Attr) {
+		if a != nil {
+			a.V = nil
+		}
+	}
+	walk = func(a *m.Attr, inColl bool) {
+		if a == nil || a.Type == nil || seen[a] {
+			return
+		}
+		seen[a] = true
+		switch a.Type.Kind {
+		case m.Array:
+			if inColl {
+				clear(a)
+				clear(a.Type.Elem)
+			}
+			walk(a.Type.Elem, true)
+		case m.Map:
+			if inColl {
+				clear(a)
+				clear(a.Type.Key)
+				clear(a.Type.Val)
+			}
+			walk(a.Type.Key, true)
+			walk(a.Type.Val, true)
+		case m.Object, m.Union:
+			for _, f := range a.Type.Fields {
+				walk(f.Attr, false)
+			}
+		}
+	}
+	for _, ut := range d.Types {
+		walk(ut.Attr, false)
+	}
+	for _, s := range d.Services {
+		for _, meth := range s.Methods {
+			walk(meth.Payload, false)
+			walk(meth.Result, false)
+			walk(meth.StreamingPayload, false)
+		}
+	}
 }
 
 // message draws a payload or result: nil, primitive, array, map, inline
